@@ -20,26 +20,26 @@ def sh(cmd, cwd=None, env=None, timeout=3000):
 def main():
     seed = os.path.abspath(sys.argv[1])
     ids = sys.argv[2:]
-    wt = "/tmp/wt_seed_" + os.path.basename(os.path.dirname(seed + "/")) + "_" + os.path.basename(seed)
+    wt = "/tmp/wt_seed_" + os.path.basename(os.path.dirname(seed)) + "_" + os.path.basename(seed)
     env = vlib.go_env()
     sh(f"git -C /repo worktree remove --force {wt}")
     rc, out = sh(f"git -C /repo worktree add -f {wt} HEAD")
     res = {"seed": seed}
     try:
         demo = open(os.path.join(seed, "demo_test.go")).read()
-        m = re.search(r"[Bb]elongs in:?\s*(\S+)", demo) or re.search(r"(internal/[\w/]+)", demo)
+        head = demo.split("\npackage ", 1)[0]
+        m = re.search(r"\./((?:internal|cmd)/[\w/]+)", head) or re.search(r"((?:internal|cmd)/[\w/]+)", head)
         pkg = m.group(1).rstrip("/,.;")
-        tm = re.search(r"func (Test\w+)", demo)
-        test = tm.group(1)
+        test = "|".join(re.findall(r"func (Test\w+)", demo))
         dst = os.path.join(wt, pkg, "zz_seed_demo_test.go")
         open(dst, "w").write(demo)
-        rc0, out0 = sh(f"go test -count=1 -run '^{test}$' ./{pkg}/", cwd=wt, env=env)
+        rc0, out0 = sh(f"go test -count=1 -run '^({test})$' ./{pkg}/", cwd=wt, env=env)
         res["demo_passes_unpatched"] = rc0 == 0
         rc, out = sh(f"git apply {seed}/patch.diff", cwd=wt)
         res["patch_applies"] = rc == 0
         rc, out = sh("go build ./...", cwd=wt, env=env)
         res["builds"] = rc == 0
-        rc1, out1 = sh(f"go test -count=1 -run '^{test}$' ./{pkg}/", cwd=wt, env=env)
+        rc1, out1 = sh(f"go test -count=1 -run '^({test})$' ./{pkg}/", cwd=wt, env=env)
         res["demo_fails_patched"] = rc1 != 0
         os.remove(dst)
         touched = sorted({os.path.dirname(l[6:]) for l in open(os.path.join(seed, "patch.diff")) if l.startswith("+++ b/")})
